@@ -31,6 +31,15 @@ CHECKS = {
             "Operand bytes beyond the second are covered by fills (C02 sweeps every position); callbacks run against "
             "binja_test_mocks as the repository's own tests do.",
             "DESIGN.md section 4, C01"),
+    "C05": ("exploration",
+            "exhaustive enumeration of encodings x boundary addresses x flag values x displacement/target palettes; static "
+            "metadata of get_instruction_info compared with the PC reached by the real Emulator; inverse-pair runs",
+            "Every structural shape (prefix set) at addresses incl. 64 KiB page edges and the top of the address space under all "
+            "four C/Z values, every 8-bit displacement and a 12-value palette per target byte for control-flow opcodes; CALL..RET, "
+            "CALLF..RETF, IR..RETI with 5 callee bodies; the oracle is execution itself, so no reference model is involved.",
+            "16/20-bit targets by palette, not all values; IR is judged only through the pair law; FunctionReturn/Unresolved "
+            "branches carry no target.",
+            "DESIGN.md section 4, C05"),
     "C06": ("exploration",
             "exhaustive differential enumeration: every structural encoding x a state palette executed once on the "
             "Python Emulator and once on the Rust LlamaExecutor from identical state, plus all ordered pairs/triples of an "
